@@ -63,6 +63,9 @@ PREFIXES = [
     # slots shuffled by an unregister / re-register history; f3 occupies and frees entries
     ["reg s1 f2", "reg s1 f1", "unreg s1 f2", "reg s1 f3", "reg s1 f2", "unreg s1 f3", "reg s2 f3", "reg s2 f1",
      "unreg s2 f3", "reg s2 f2", "unreg s2 f1", "reg s2 f1"],
+    # s1 is destroyed and re-created while the owners of its first incarnation live on; they end after
+    # the new incarnation has registered the same functions (in another order)
+    ["reg s1 f1", "reg s1 f2", "reg s2 f1", "reg s2 f2", "recreate s1", "reg s1 f2", "reg s1 f1", "dropstale s1"],
 ]
 
 
